@@ -350,6 +350,70 @@ fn in_process(plan: &Plan) -> Judged {
 						}
 						j.count("idles", 1);
 					}
+					13 => {
+						// the holder uses the rest of its public surface that rearranges the
+						// directory - flush, compaction, checkpoint and restore from it - and the
+						// directory must stay refused to a second opener throughout its lifetime
+						let h = match holder {
+							Some(h) => h,
+							None => continue,
+						};
+						let t = slots[h].as_ref().unwrap();
+						let what = rng.below(4);
+						match what {
+							0 => {
+								let _ = t.verif_flush_all();
+							}
+							1 => {
+								let _ = t.verif_flush_all();
+								let _ = t.verif_compact_round();
+							}
+							_ => {
+								let cp = dir.with_extension(format!("cp{}", step));
+								let _ = std::fs::remove_dir_all(&cp);
+								if let Err(e) = t.create_checkpoint(&cp) {
+									fail(&mut j, "checkpoint_failed", format!("step {}: {}", step, e));
+									return;
+								}
+								if what == 3 {
+									if let Err(e) = t.restore_from_checkpoint(&cp) {
+										fail(&mut j, "restore_failed", format!("step {}: {}", step, e));
+										return;
+									}
+									j.count("restores_while_held", 1);
+								}
+								let _ = std::fs::remove_dir_all(&cp);
+							}
+						}
+						j.count("maintenance_while_held", 1);
+						let from = ip::op_count();
+						let r = open_store(&opts, &dir);
+						let ops = ip::ops_since(from);
+						match r {
+							Ok(_t) => {
+								fail(&mut j, "double_open", format!("step {}: the directory was opened a second time after its holder {} (still live)", step, ["flushed", "flushed and compacted", "took a checkpoint", "restored a checkpoint"][what as usize]));
+								return;
+							}
+							Err(_) => {
+								j.count("refused_opens", 1);
+								if let Err(d) = only_lock_touched(&ops) {
+									fail(&mut j, "refused_open_touched_data", format!("step {}: {}", step, d));
+									return;
+								}
+							}
+						}
+						// the holder still serves everything acknowledged so far
+						let rtxn = t.begin().unwrap();
+						for w in 1..=written {
+							match rtxn.get(format!("s{}", w).as_bytes()) {
+								Ok(Some(_)) => {}
+								other => {
+									fail(&mut j, "data_lost", format!("step {}: key s{} reads {:?} after maintenance by the holder", step, w, other.map(|o| o.is_some())));
+									return;
+								}
+							}
+						}
+					}
 					11 | 12 => {
 						// a handle closed earlier is closed again / dropped
 						if !zombies.is_empty() {
